@@ -100,6 +100,7 @@ func init() {
 					}
 				}
 			}
+			g.swarmExtras(p, true, false)
 			return p
 		},
 		Arm: func(s *Sys) { s.Mon = append(s.Mon, &c08{s: s}) },
